@@ -41,6 +41,11 @@ pub struct IoSimPlan {
     pub via_file: bool,
     pub write_plan: IoPlan,
     pub filter: u8,
+    /// `definitions` (C12): non-zero = names referenced as `{name}` get a syntax definition
+    /// through `ParsedFormula::define` before evaluation (seed of their choice), and the formula is
+    /// evaluated twice
+    #[serde(default)]
+    pub definitions: u64,
 }
 
 pub fn gen_plan(rng: &mut Prng, property: &str) -> IoSimPlan {
@@ -58,6 +63,12 @@ pub fn gen_plan(rng: &mut Prng, property: &str) -> IoSimPlan {
     } else {
         gen_stored_formula(rng)
     };
+    let mut formula = formula;
+    let definitions = if property == "C12" && rng.chance(1, 4) { rng.next_u64() | 1 } else { 0 };
+    if definitions != 0 && formula.base_kind == "generated" {
+        formula.base = splice_references(&formula.base, rng);
+        formula.base_kind = "generated+references".into();
+    }
     let ordering = if rng.chance(1, 3) {
         // names the ordering file talks about: words of the formula text (own light scan)
         let text = String::from_utf8_lossy(&formula.bytes().0).to_string();
@@ -91,7 +102,121 @@ pub fn gen_plan(rng: &mut Prng, property: &str) -> IoSimPlan {
         via_file: property == "C10" && rng.chance(1, 8),
         write_plan: gen_io_plan(rng, 256, true, true),
         filter: rng.below(3) as u8,
+        definitions,
     }
+}
+
+/// Turn some occurrences of one or two identifiers of a formula text into references `{name}`
+/// (never an occurrence that is followed by `#` or `,`, which would be a binder).
+fn splice_references(text: &[u8], rng: &mut Prng) -> Vec<u8> {
+    let s = String::from_utf8_lossy(text).to_string();
+    let chars: Vec<char> = s.chars().collect();
+    let is_id = |c: char| c.is_alphanumeric() || c == '_' || c == '\'';
+    let mut words: Vec<(usize, usize)> = Vec::new();
+    let mut i = 0;
+    let mut in_comment = false;
+    while i < chars.len() {
+        if chars[i] == '"' {
+            in_comment = !in_comment;
+            i += 1;
+        } else if !in_comment && is_id(chars[i]) && !chars[i].is_numeric() {
+            let st = i;
+            while i < chars.len() && is_id(chars[i]) {
+                i += 1;
+            }
+            words.push((st, i));
+        } else {
+            i += 1;
+        }
+    }
+    let word = |w: &(usize, usize)| chars[w.0..w.1].iter().collect::<String>();
+    let mut names: Vec<String> = Vec::new();
+    for w in &words {
+        let n = word(w);
+        if !fast::KEYWORDS.contains(&n.as_str()) && !names.contains(&n) {
+            names.push(n);
+        }
+    }
+    if names.is_empty() {
+        return text.to_vec();
+    }
+    rng.shuffle(&mut names);
+    names.truncate(rng.range(1, 2));
+    let mut out = String::new();
+    let mut pos = 0;
+    for w in &words {
+        let n = word(w);
+        let next = chars[w.1..].iter().find(|c| !c.is_whitespace());
+        if names.contains(&n) && !matches!(next, Some('#') | Some(',')) && rng.chance(2, 3) {
+            out.extend(chars[pos..w.0].iter());
+            out.push('{');
+            out.push_str(&n);
+            out.push('}');
+            pos = w.1;
+        }
+    }
+    out.extend(chars[pos..].iter());
+    out.into_bytes()
+}
+
+fn reference_names(s: &SymbolicBDD, out: &mut Vec<String>) {
+    match s {
+        SymbolicBDD::Reference(n) => {
+            if !out.contains(n) {
+                out.push(n.clone());
+            }
+        }
+        SymbolicBDD::Not(a) | SymbolicBDD::Quantifier(_, _, a) | SymbolicBDD::FixedPoint(_, _, a) => reference_names(a, out),
+        SymbolicBDD::BinaryOp(_, a, b) => {
+            reference_names(a, out);
+            reference_names(b, out);
+        }
+        SymbolicBDD::Ite(a, b, c) => {
+            reference_names(a, out);
+            reference_names(b, out);
+            reference_names(c, out);
+        }
+        SymbolicBDD::CountableConst(_, l, _) => l.iter().for_each(|x| reference_names(x, out)),
+        SymbolicBDD::CountableVariable(_, l, r) => l.iter().chain(r.iter()).for_each(|x| reference_names(x, out)),
+        _ => {}
+    }
+}
+
+/// Install a small reference-free syntax definition over the formula's own variables for every
+/// referenced name (some stay undefined). Returns how many were defined.
+fn install_definitions(pf: &ParsedFormula, seed: u64) -> usize {
+    use rsbdd::parser::{BinaryOperator, QuantifierType, ReferenceContents};
+    let mut names = Vec::new();
+    reference_names(&pf.bdd, &mut names);
+    let mut count = 0;
+    for n in names {
+        let mut rng = Prng::new(seed ^ digest_bytes(n.as_bytes()));
+        if rng.chance(1, 5) {
+            continue;
+        }
+        let var = |rng: &mut Prng| -> SymbolicBDD {
+            if pf.vars.is_empty() {
+                if rng.coin() { SymbolicBDD::True } else { SymbolicBDD::False }
+            } else {
+                SymbolicBDD::Var(rng.pick(&pf.vars).clone())
+            }
+        };
+        let syntax = match rng.below(7) {
+            0 => SymbolicBDD::True,
+            1 => SymbolicBDD::False,
+            2 => var(&mut rng),
+            3 => SymbolicBDD::Not(Box::new(var(&mut rng))),
+            4 => SymbolicBDD::BinaryOp(BinaryOperator::And, Box::new(var(&mut rng)), Box::new(var(&mut rng))),
+            5 => SymbolicBDD::BinaryOp(BinaryOperator::Or, Box::new(var(&mut rng)), Box::new(SymbolicBDD::Not(Box::new(var(&mut rng))))),
+            _ => match pf.vars.first() {
+                Some(v) => SymbolicBDD::Quantifier(QuantifierType::Exists, vec![v.clone()], Box::new(SymbolicBDD::BinaryOp(BinaryOperator::Xor, Box::new(SymbolicBDD::Var(v.clone())), Box::new(var(&mut rng))))),
+                None => SymbolicBDD::True,
+            },
+        };
+        pf.define(&n, ReferenceContents::Syntax(syntax));
+        count += 1;
+    }
+    count
 }
 
 fn tee(filter: u8) -> TruthTableEntry {
@@ -287,9 +412,27 @@ fn exec_c12(plan: &IoSimPlan, out: &mut RunOutcome) {
             violations.push(panic_v("to_free_index/usize2var over the formula's own variables", &m, &l, 4));
         }
         // stage 5: eval under a tick budget (non-convergent fixed points are outside the property)
+        let mut defined = 0;
+        if plan.definitions != 0 {
+            match catch(|| install_definitions(&pf, plan.definitions)) {
+                Caught::Ok(n) => defined = n,
+                Caught::Panic(m, l) => violations.push(panic_v("ParsedFormula::define", &m, &l, 5)),
+                _ => {}
+            }
+            if defined > 0 {
+                bump(&mut stats, "fault.definitions");
+            }
+        }
         rsbdd::verif_hooks::reset();
         rsbdd::verif_hooks::set_budget(Some(EVAL_BUDGET));
-        let r = catch(|| pf.eval());
+        let r = catch(|| {
+            let d = pf.eval();
+            if defined > 0 {
+                // a second evaluation of the same object, as `-b N` does
+                let _ = pf.eval();
+            }
+            d
+        });
         rsbdd::verif_hooks::set_budget(None);
         out.ticks += rsbdd::verif_hooks::ticks();
         match r {
